@@ -215,7 +215,7 @@ def check_C02(pid, tier, seed, t0):
 def check_C18(pid, tier, seed, t0):
     return generic_codec_check(
         pid, tier, seed, t0,
-        runs=[("lookup", 300, 4000, None)],
+        runs=[("lookup", 300, 4000, None), ("parallel", 60, 400, None)],
         extra_runs=[("stream", 120, 2000, None, "stream", "frame")],
         nontrivial=lambda r: r["mode"] == "valbytag" or r["impl"].startswith("OK") or r["mode"].startswith("frame"),
         rule="messages whose values contain 't=' for template tags t (plain, count, first-of-group, MsgType, MsgSeqNum, "
